@@ -79,7 +79,7 @@ func (n *node[K, V]) traverseEqualOrGreater(compareFunc func(a, b K) int, key K,
 		return true
 	}
 	result := compareFunc(key, n.key)
-	if result < 0 {
+	if result <= 0 {
 		if !n.left.traverseEqualOrGreater(compareFunc, key, visitorFunc) {
 			return false
 		}
@@ -97,7 +97,7 @@ func (n *node[K, V]) traverseEqualOrLess(compareFunc func(a, b K) int, key K, vi
 		return true
 	}
 	result := compareFunc(key, n.key)
-	if result > 0 {
+	if result >= 0 {
 		if !n.right.traverseEqualOrLess(compareFunc, key, visitorFunc) {
 			return false
 		}
